@@ -26,6 +26,16 @@ def _ref_sched_bytes(key):
     return [b for col in w for b in col]   # flat list, 4 bytes per column
 
 
+KEY_DTYPES = ['uint8', 'uint8', 'int16', 'uint16', 'int32', 'uint32', 'int64', 'uint64']
+
+
+def _as_arg(case, arr):
+    """the key argument as a caller may hold it: byte values in any integer dtype, any memory layout (both derived from the case)"""
+    from vlib.core import digest
+    dt = KEY_DTYPES[digest(case)[1] % len(KEY_DTYPES)]
+    return gen.L(case, np.asarray(arr).astype(dt), 1)
+
+
 def check_aes_window(ctx, case):
     keys, col_in, col_out, single = case['keys'], case['col_in'], case['col_out'], case['single']
     ks = keys.shape[1]
@@ -33,7 +43,7 @@ def check_aes_window(ctx, case):
     # the window of Nk columns starting at col_in, taken from the true schedule of each master key
     full = [_ref_sched_bytes(k) for k in keys]
     win = np.array([f[4 * col_in:4 * (col_in + nk)] for f in full], dtype='uint8')
-    arg = win[0] if single else win
+    arg = _as_arg(case, win[0] if single else win)
     a0 = arg.copy()
     kw = {'col_in': col_in}
     if col_out is not None:
@@ -56,7 +66,7 @@ def check_aes_window(ctx, case):
 def check_aes_schedule(ctx, case):
     keys, single = case['keys'], case['single']
     ks = keys.shape[1]
-    arg = keys[0] if single else keys
+    arg = _as_arg(case, keys[0] if single else keys)
     out = must(case, 'aes.key_schedule', aes.key_schedule, arg)
     exp = np.array([AR.round_keys(bytes(k)) for k in (keys[:1] if single else keys)], dtype='uint8')
     if single:
@@ -75,7 +85,7 @@ def check_aes_schedule(ctx, case):
 
 def check_des_schedule(ctx, case):
     keys, single, r = case['keys'], case['single'], case['interrupt']
-    arg = keys[0] if single else keys
+    arg = _as_arg(case, keys[0] if single else keys)
     kw = {} if r is None else {'interrupt_after_round': r}
     out = must(case, 'des.key_schedule(%s)' % kw, des.key_schedule, arg, **kw)
     rr = 15 if r is None else r
